@@ -106,6 +106,15 @@ def impl(case):
                             args_changed=bool(list(ch) != list(case['ch']) or spikes.tolist() != list(case['spikes'])))
             chans = np.array(case['chans'], dtype=np.int64).reshape((len(spikes), case['nloc']))
             path = d / 'w.npy'
+            prev = case.get('prev')
+            if prev == 'export':
+                # the destination already holds an EARLIER export (other spikes, other factor): the new export
+                # replaces it
+                k = max(1, len(spikes) // 2)
+                T.export_waveforms(path, traces, spikes[:k], chans[:k][:, ::-1], n_samples_waveforms=n,
+                                   sample2unit=3., cache=False)
+            elif prev == 'bytes':
+                path.write_bytes(b'not an array file at all ' * 40)
             T.export_waveforms(path, traces, spikes, chans if case.get('chkind') == 'array' else chans.tolist(),
                                n_samples_waveforms=n, sample2unit=case['factor'], cache=bool(case.get('cache')))
             arr = np.load(path)
@@ -245,6 +254,7 @@ def nontrivial(case):
 def tally(rep, case, impl_res, ans):
     if case['op'] in ('export', 'lookup'):
         rep.count('export_cache:%s' % bool(case.get('cache')))
+        rep.count('destination_before_the_export:%s' % {'export': 'an earlier export', 'bytes': 'foreign bytes'}.get(case.get('prev'), 'absent'))
     rep.count('op:' + case['op'])
     if case['op'] in ('model', 'model_store'):
         if case['op'] == 'model_store' and 'ok' in impl_res and not impl_res['ok'].get('skip'):
@@ -378,6 +388,7 @@ def gen(tier, rng):
                  nloc=nloc, sdtype=sdts[k % 4], dtype=dtype, factor=[1, 2, 1.0, 0.5, 2.5][k % 5],
                  chkind=['array', 'list'][(k // 2) % 2], cache=bool((k // 3) % 2))
         c.update(be)
+        c['prev'] = ['none', 'export', 'none', 'bytes', 'export'][k % 5 if k % 7 else 1]
         if dtype == 'int16' and k % 4 == 0:
             c['bias'] = 20000        # products with an int factor exceed the int16 range
         if dtype == 'float32' and k % 4 == 1:
